@@ -39,6 +39,13 @@ impl<'a> SendBlocksProofProcess<'a> {
 
     pub(crate) fn execute(self) -> Status {
         let status = self.execute_internally();
+        if !status.is_ok() {
+            // A rejected response delivered nothing, the request is dropped below, so the
+            // in-flight hashes have to be offered to another peer.
+            self.protocol
+                .peers()
+                .mark_fetching_headers_timeout(self.peer_index);
+        }
         self.protocol
             .peers()
             .update_blocks_proof_request(self.peer_index, None, false);
